@@ -345,12 +345,15 @@ theorem argExtreme_axis_spec (h : c.Lawful) (zero : α) (isMax : Bool) (a : Arr 
       · obtain ⟨p, _, hp, _⟩ := argmax_spec h lane hne; exact ⟨p, hp⟩
     refine ⟨p, hp, ?_⟩
     have hp' : argExtremePos c isMax (Arr.flat lane).elems = .ok p := hp
+    unfold argExtremeLane
+    rw [if_neg (by simp [hemp]), hp', Res.bind_ok]
     by_cases hkd : kd = some true
-    · simp [argExtremeLane, hemp, hp', hkd, Arr.keepdimsTail, Arr.flat, Arr.ndim, Arr.atleast, Arr.atleast1d]
-    · simp [argExtremeLane, hemp, hp', hkd, Arr.keepdimsTail]
+    · have hnd : (Arr.flat lane).ndim = 1 := rfl
+      simp [Arr.keepdimsTail, hkd, hnd, Arr.atleast, Arr.atleast1d]
+    · simp [Arr.keepdimsTail, hkd]
   obtain ⟨r, h1, h2, h3, h4⟩ := countAxis_single a zero (0 : Nat) ax kd (argExtremeLane c isMax) hwf hnz hax
     (fun lane hl => by
-      obtain ⟨p, _, hp⟩ := hbody lane (by intro h0; rw [h0] at hl; simp at hl; omega)
+      obtain ⟨p, _, hp⟩ := hbody lane (by intro h0; rw [h0, List.length_nil] at hl; omega)
       exact ⟨_, hp, rfl⟩)
   refine ⟨r, h1, h2, h3, ?_⟩
   intro cd hcd
@@ -432,5 +435,24 @@ example : resolveKind (.str ['S','T','A','B','L','E']) = .ok .Stable := by decid
 example : resolveKind (.str ['t','i','m','s','o','r','t']) = .err .ParameterError := by decide
 /-- the pinned copies on the first merge of a 32-element lane (runs of 16, loop exits with `i = 16`) -/
 example : pinnedMergeTail (List.range 16) (List.range 16) 16 16 (List.range 32) 16 0 16 = .panic := by decide +kernel
+
+/-- a `[2,3,2]` array with duplicates, middle axis (either spelling): hypotheses of the axis theorems, and what they
+describe, computed by the model -/
+def sample3 : Arr Int := ⟨[3, 1, 2, 1, 1, 0, 2, 3, 2, 0, 2, 1], [2, 3, 2]⟩
+
+example : sample3.WF ∧ 0 ∉ sample3.shape ∧ normalizeAxis sample3.ndim 1 < sample3.ndim ∧
+    normalizeAxis sample3.ndim (-2) = 1 := by decide
+example : Sort.sort Cmp.int 0 sample3 (some 1) (.enum .Stable) =
+    .ok ⟨[1, 0, 2, 1, 3, 1, 2, 0, 2, 1, 2, 3], [2, 3, 2]⟩ := by decide +kernel
+example : Sort.sort Cmp.int 0 sample3 (some (-2)) (.enum .Heapsort) =
+    Sort.sort Cmp.int 0 sample3 (some 1) (.enum .Stable) := by decide +kernel
+example : laneOf sample3 1 [0, 0, 0] = [3, 2, 1] ∧ laneOf sample3 1 [1, 2, 1] = [3, 0, 1] := by decide +kernel
+example : Sort.argsort Cmp.int 0 sample3 (some 1) (.enum .Mergesort) =
+    .ok ⟨[2, 1, 1, 2, 0, 0, 0, 2, 1, 0, 2, 1], [2, 3, 2]⟩ := by decide +kernel
+example : Sort.argExtreme Cmp.int 0 false sample3 (some 1) (some true) = .ok ⟨[2, 2, 0, 1], [2, 1, 2]⟩ ∧
+    Sort.argExtreme Cmp.int 0 false sample3 (some 1) none = .ok ⟨[2, 2, 0, 1], [2, 2]⟩ := by decide +kernel
+example : Sort.sort Cmp.int 0 sample3 (some 3) (.enum .Stable) = .err .AxisOutOfBounds := by decide +kernel
+example := sort_axis_spec Cmp.int_lawful 0 sample3 1 (.enum .Stable) .Stable rfl (by decide) (by decide) (by decide)
+example := argExtreme_axis_spec Cmp.int_lawful 0 true sample3 (-2) none (by decide) (by decide) (by decide)
 
 end ArrModel.C10
